@@ -354,6 +354,13 @@ impl<'a, 'tcx> Cx<'a, 'tcx> {
                                 let size = si.size();
                                 fields.push(("sint", J::Num(si.to_int(size))));
                             }
+                        } else if let mir::interpret::Scalar::Ptr(ptr, _) = sc {
+                            // a reference to a `static` item: name the item (its initialiser is a body of its own)
+                            if let Some(mir::interpret::GlobalAlloc::Static(sdid)) =
+                                tcx.try_get_global_alloc(ptr.provenance.alloc_id())
+                            {
+                                fields.push(("static", s(path_of(tcx, sdid))));
+                            }
                         }
                     }
                     mir::ConstValue::ZeroSized => {
